@@ -651,3 +651,160 @@ func dsNoValueRefusal(c *Ctx, r *Report, rule string) {
 	sort.Strings(bad)
 	r.check(n > 0 && len(bad) == 0, rule, "DNSKEY.ToDS:value", c.pos(fn.Pos()), "refusals are errors and unknown digest types only", "ToDS returns nil where a value computed from the key equals a constant (%s): keys for which the value happens to come out that way (one key in 65536 has key tag 0) get no DS record although they pack and digest like any other", strings.Join(uniqStrings(bad), "; "))
 }
+
+// ---- octet classes by abstract execution ----
+
+// octetClass: what a function of one octet does for a given value of it.
+type octetClass struct {
+	Backslash bool // writes a backslash constant
+	DDD       bool // calls escapeByte
+	Raw       bool // hands the octet itself to a write call
+}
+
+// octetClasses executes fn's control flow for each of the 256 values of its octet parameter: branch conditions that
+// are built from comparisons of the octet with constants are decided, every other branch is followed both ways. The
+// result says, per value, which kinds of output the function can produce. The spelling of the tests (switch, if
+// chain, merged or split conditions, negations) does not matter.
+func octetClasses(fn *ssa.Function, octet ssa.Value) (out [256]octetClass) {
+	for v := 0; v < 256; v++ {
+		var eval func(x ssa.Value, prev *ssa.BasicBlock, depth int) (int64, bool)
+		eval = func(x ssa.Value, prev *ssa.BasicBlock, depth int) (int64, bool) {
+			if depth > 12 {
+				return 0, false
+			}
+			if x == octet {
+				return int64(v), true
+			}
+			if k, ok := constIntOf(x); ok {
+				return k, true
+			}
+			if b, ok := constBool(x); ok {
+				if b {
+					return 1, true
+				}
+				return 0, true
+			}
+			switch t := x.(type) {
+			case *ssa.Convert:
+				k, ok := eval(t.X, prev, depth+1)
+				if !ok {
+					return 0, false
+				}
+				if bt, isB := t.Type().Underlying().(*types.Basic); isB {
+					switch bt.Kind() {
+					case types.Uint8:
+						k &= 0xff
+					case types.Int8:
+						k = int64(int8(k))
+					case types.Uint16:
+						k &= 0xffff
+					}
+				}
+				return k, true
+			case *ssa.UnOp:
+				if t.Op == token.NOT {
+					k, ok := eval(t.X, prev, depth+1)
+					return 1 - k, ok
+				}
+			case *ssa.Phi:
+				if prev != nil {
+					for i, p := range t.Block().Preds {
+						if p == prev {
+							return eval(t.Edges[i], nil, depth+1)
+						}
+					}
+				}
+			case *ssa.BinOp:
+				a, ok1 := eval(t.X, prev, depth+1)
+				b, ok2 := eval(t.Y, prev, depth+1)
+				if !ok1 || !ok2 {
+					return 0, false
+				}
+				tb := func(c bool) (int64, bool) {
+					if c {
+						return 1, true
+					}
+					return 0, true
+				}
+				u8 := false
+				if bt, isB := t.X.Type().Underlying().(*types.Basic); isB && bt.Kind() == types.Uint8 {
+					u8 = true
+				}
+				wrap := func(k int64) (int64, bool) {
+					if u8 {
+						return k & 0xff, true
+					}
+					return k, true
+				}
+				switch t.Op {
+				case token.EQL:
+					return tb(a == b)
+				case token.NEQ:
+					return tb(a != b)
+				case token.LSS:
+					return tb(a < b)
+				case token.LEQ:
+					return tb(a <= b)
+				case token.GTR:
+					return tb(a > b)
+				case token.GEQ:
+					return tb(a >= b)
+				case token.ADD:
+					return wrap(a + b)
+				case token.SUB:
+					return wrap(a - b)
+				case token.AND:
+					return a & b, true
+				case token.OR:
+					return a | b, true
+				}
+			}
+			return 0, false
+		}
+		type state struct{ b, prev *ssa.BasicBlock }
+		seen := map[state]bool{}
+		var run func(b, prev *ssa.BasicBlock)
+		run = func(b, prev *ssa.BasicBlock) {
+			if seen[state{b, prev}] {
+				return
+			}
+			seen[state{b, prev}] = true
+			for _, in := range b.Instrs {
+				ci, ok := in.(ssa.CallInstruction)
+				if !ok {
+					continue
+				}
+				if calleeNameSSA(ci.Common()) == "escapeByte" {
+					out[v].DDD = true
+				}
+				for _, a := range ci.Common().Args {
+					if k, isK := constIntOf(a); isK && k == '\\' {
+						if bt, isB := a.Type().Underlying().(*types.Basic); isB && (bt.Kind() == types.Uint8 || bt.Kind() == types.Int32 || bt.Kind() == types.UntypedRune) {
+							out[v].Backslash = true
+						}
+					}
+					if a == octet && calleeNameSSA(ci.Common()) != "escapeByte" {
+						out[v].Raw = true
+					}
+				}
+			}
+			if ifi, ok := b.Instrs[len(b.Instrs)-1].(*ssa.If); ok && len(b.Succs) == 2 {
+				if k, ok := eval(ifi.Cond, prev, 0); ok {
+					if k != 0 {
+						run(b.Succs[0], b)
+					} else {
+						run(b.Succs[1], b)
+					}
+					return
+				}
+			}
+			for _, s := range b.Succs {
+				run(s, b)
+			}
+		}
+		if len(fn.Blocks) > 0 {
+			run(fn.Blocks[0], nil)
+		}
+	}
+	return
+}
